@@ -7,9 +7,9 @@ from props import _lay
 
 LEVEL = "proof"
 MODULE = "Phil.Props.C15"
-LEVEL_TEXT = "Lean theorems, all documents of the layout grammars: every scope, definition and word reports 1 + the number of newlines before its first character — flat documents (flat_lines_correct), with continuation lines, multi-line quoted words, switched-off regions and a #phil __END__ cut (lines3_correct, off_region_line_count), with attribute lines (attrs_lines_correct, attribute_error_line), nested documents (nested_lines_correct); per-primitive invariants of the character/word iterator incl. scan_for_start. Tied to /repo by a correspondence run that compares the line of every scope, definition and word and the (site, line) of every error; the oracle checks lines against the positions recorded by the layout renderer (incl. CRLF and every isspace character that is not LF), injected faults with a known faulty token (also behind '!' and with a source label), unused-definition reports and merge-time refusals."
-LEVEL_NOTE = "The 'missing closing quote' error cites the line at end of input (it names no token). Combined grammar (nesting + continuations + attributes) not yet one theorem."
-TECHNIQUE = 'Lean 4 closed-form line theorems over a layout grammar + per-primitive invariants + differential correspondence + recorded-position oracle'
+LEVEL_TEXT = "Lean theorems, all documents of ONE layout grammar for whole documents (LayoutAll: nesting, dotted names, '!', attribute items, continuation lines, multi-line quoted words, switched-off regions, a #phil __END__ cut): every scope, definition and word reports 1 + the number of newlines before its first character (lines_closed_form_all, lines_correct_all, marks_are_positions_all), the 'no matching }' error of a cut inside a scope cites the innermost open brace (cut_error_line_all); per-primitive invariants of the character/word iterator incl. scan_for_start. Tied to /repo by a correspondence run that compares the line of every scope, definition and word and the (site, line) of every error; the oracle checks lines against the positions recorded by the layout renderer (incl. CRLF and every isspace character that is not LF, values spread over continuation lines), injected faults with a known faulty token (also behind '!' and with a source label), substitution errors on any word of a value, unused-definition reports and merge-time refusals."
+LEVEL_NOTE = "The 'missing closing quote' error cites the line at end of input (it names no token). Findings D73 / D74: words rebuilt by choice fetch / by substitution into a mixture carry the master's / no line."
+TECHNIQUE = 'Lean 4 closed-form line theorem over one layout grammar for whole documents + per-primitive invariants + differential correspondence + recorded-position oracle'
 RULE = ("C02 layouts with the line of every emitted token recorded (blank lines, comments, multi-line strings, continuations, "
         "semicolons, off regions; in a share of the documents the whitespace between tokens, on otherwise empty lines, in "
         "comments, in quoted values and in off regions is any str.isspace() character other than LF - form feed, VT, FS/GS/RS/US, "
